@@ -169,6 +169,8 @@ def mul(a, b):
         if x.op == 'const':
             if x.val == 0: return const(0)
             if x.val == 1: return y
+    if a.op != 'const' and b.op != 'const' and a.id > b.id:
+        a, b = b, a          # commutative normal form: x*y and y*x are one term
     return _mk('mul', (a, b), 'i')
 
 
@@ -403,6 +405,21 @@ def iff(a, b):
     if a.op == 'bconst': return b if a.val else not_(b)
     if b.op == 'bconst': return a if b.val else not_(a)
     return _mk('iff', (a, b), 'b')
+
+
+_range_hint = {}
+
+
+def clamp(x, lo, hi):
+    """min(max(x, lo), hi) with its interval recorded (interval analysis does not refine by ite guards)"""
+    x = as_int(x)
+    t = ite(lt(x, lo), lo, ite(gt(x, hi), hi, x))
+    _range_hint[t.id] = (lo, hi)
+    return t
+
+
+def range_hint(t):
+    return _range_hint.get(t.id)
 
 
 # spec-level helpers -------------------------------------------------------------------------
